@@ -2,7 +2,8 @@
 
    Model: C10_Model.load, the loader AFTER parsing (version detection, the v1/v0 schemas as
    data, ConvertAndCheck v1/v0 with defaults, CheckIncludeSnapshots, group merge, settings),
-   following the code after the repairs of F15 (v0 keeps full objects), F17 (v0 without
+   following the code after the repairs of F15 (v0 keeps full objects), F22 (a zero-step crontab is
+   rejected instead of looping forever: it is one of the strings the crontab oracle rejects), F17 (v0 without
    `event` watches all three events) and F18 (namespace.labelSelector of kubernetes bindings
    is validated).  Spec: C10_Spec.P.  Every theorem holds for ALL oracles (crontab parser,
    label-selector validator, duration parser, webhook validation): they are universally
